@@ -235,6 +235,10 @@ class SeqExec(Structured):
 
     def ev_BinOp(self, e, st):
         a, b = self.ev(e.left, st), self.ev(e.right, st)
+        if isinstance(e.op, ast.Sub) and a[0] == 'set':
+            return ('setdiff', a[1], membership(b))
+        if isinstance(e.op, ast.BitAnd) and a[0] == 'set':
+            return ('setand', a[1], membership(b))
         if isinstance(e.op, ast.Add):
             if a[0] == 'const' and b[0] == 'const':
                 return ('opaque', U(e))
@@ -265,6 +269,8 @@ class SeqExec(Structured):
                 return ('dom', 'self.domain')
             if e.attr == 'weights':
                 return ('weights', 'self')
+        if e.attr == 'index' and base[0] in ('attrs', 'p'):
+            return ('indexof', base)
         if e.attr in ('attrs', 'shape', 'config'):
             d = self.as_dom(base)
             if d is not None:
@@ -317,6 +323,8 @@ class SeqExec(Structured):
             return sizes(v[1], out)
         if v[0] == 'edge' and v[1] == elem:
             return ('edges', out)
+        if v[0] == 'lit' and len(v[1]) == 2 and v[1][0] == ('const', '0') and v[1][1] == elem:
+            return ('ranges0', out)          # [(0, n) for n in shape]: with bins=shape the same edges 0..n
         return ('opaque', U(e))
 
     ev_ListComp = comp
@@ -334,6 +342,15 @@ class SeqExec(Structured):
         fn = U(f)
         if fn == 'set' and len(args) == 1:
             return ('set', iterview(args[0]))
+        if fn == 'sorted' and len(args) == 1 and set(kw) == {'key'} and kw['key'][0] == 'indexof':
+            # sorted(S, key=A.index) with S a sub-set of A: the elements of S in A's own order
+            S = args[0]
+            A = kw['key'][1]
+            if S[0] == 'setdiff' and S[1] == A:
+                return ('filter', A, True, S[2])
+            if S[0] == 'setand' and S[1] == A:
+                return ('filter', A, False, S[2])
+            return ('opaque', U(e))
         if fn == 'zip' and len(args) == 2:
             return ('zip', args[0], args[1])
         if fn == 'dict' and len(args) == 1 and args[0][0] == 'zip':
@@ -362,6 +379,8 @@ class SeqExec(Structured):
                         return ('select', recv, iterview(c))
             if f.attr in ('keys', 'values') and not args:
                 return (f.attr, recv)
+            if recv[0] == 'set' and f.attr in ('difference', 'intersection') and len(args) == 1:
+                return ('setdiff' if f.attr == 'difference' else 'setand', recv[1], membership(args[0]))
             d = self.as_dom(recv)
             if recv[0] == 'ds':
                 return self.method(e, 'src/mbi/dataset.py', 'Dataset', f.attr, recv, args, kw)
